@@ -4,7 +4,8 @@
  *                            PSK key table) and a client context with one TLS client session, the REAL GnuTLS on both sides and
  *                            REAL loopback TCP sockets, in one process.  libcoap's epoll external-loop API is driven by the
  *                            harness: ONE epoll event at a time, client and server alternating, until nothing is ready any
- *                            more (bounded number of rounds, wall-clock watchdog).  Deterministic in what is OBSERVED per entry
+ *                            more and no byte written is still unacknowledged by the peer's TCP (bounded number of rounds,
+ *                            wall-clock watchdog).  Deterministic in what is OBSERVED per entry
  *                            point, not in timing: the entry points and the TLS library's answers are whatever happened, and
  *                            are replayed into M.
  *
@@ -40,6 +41,8 @@
 #include <gnutls/gnutls.h>
 #include <sys/epoll.h>
 #include <sys/socket.h>
+#include <sys/ioctl.h>
+#include <linux/sockios.h>
 #include <arpa/inet.h>
 #include <netinet/tcp.h>
 #include <fcntl.h>
@@ -470,6 +473,15 @@ static int pump_one(coap_context_t *ctx, char side, int wait_ms, int locked) {
 /* run the contexts in `who` ("cs", "c", "s") until nothing is ready for IDLE_ROUNDS consecutive 1 ms waits; returns 0 when the
    watchdog fired */
 #define IDLE_ROUNDS 6
+/* bytes written to a TCP socket that the peer's TCP has not acknowledged yet: something is still on its way (the loopback
+   delivers in a softirq, which a loaded machine may defer) */
+static int in_flight(void) {
+  int n = 0, v;
+  coap_session_t *ss = srv_session();
+  if (g_cs && !g_cs_gone && g_cs->sock.fd >= 0 && (g_cs->sock.flags & COAP_SOCKET_CONNECTED) && !ioctl(g_cs->sock.fd, SIOCOUTQ, &v)) n += v;
+  if (ss && ss->sock.fd >= 0 && (ss->sock.flags & COAP_SOCKET_CONNECTED) && !ioctl(ss->sock.fd, SIOCOUTQ, &v)) n += v;
+  return n;
+}
 static int pump_quiet(const char *who, int locked, int (*stop)(void)) {
   int idle = 0, c = strchr(who, 'c') != NULL, s = strchr(who, 's') != NULL;
   for (int round = 0; round < 4000 && idle < IDLE_ROUNDS; round++) {
@@ -481,7 +493,7 @@ static int pump_quiet(const char *who, int locked, int (*stop)(void)) {
     if (did) { idle = 0; continue; }
     idle++;
     did = (c ? pump_one(g_cli, 'c', 1, locked) : 0) + (s ? pump_one(g_srv, 's', 1, locked) : 0);
-    if (did) idle = 0;
+    if (did || in_flight()) idle = 0;
   }
   return 1;
 }
